@@ -4,11 +4,16 @@ import AtreeProofs.Health.Climb
 import AtreeProofs.Health.Check
 import AtreeProofs.Health.ChildRefs
 import AtreeProofs.Health.Corrupt
+import AtreeProofs.Health.Order
 /-
   Helper lemmas for the health-check model (C20).  The development lives in `AtreeProofs/Health/`:
   * `Scan`      – `edges`/`targets`, exact behaviour of `scanRefs`, `scan`, `allResolve`;
   * `Climb`     – parent chains (`Chain`), exact behaviour of `climb`, `climbAll`;
   * `Check`     – `Reach` lemmas, `check_ok_iff`, `check_sound`, `check_complete`;
-  * `ChildRefs` – the breadth-first `childRefs` query on a healthy heap;
-  * `Corrupt`   – erased / added slabs.
+  * `ChildRefs` – the breadth-first `childRefs` query on every heap (levels, paths, divergence);
+  * `Corrupt`   – erased / added slabs;
+  * `Order`     – the outcome of `check` does not depend on the order of the heap;
+  * `Forest`, `Iter`, `ArrayHeap`, `ArrayHistory`, `MapHeap`, `MapHistory`, `Storage`, `StorageMap` –
+    establishing `Healthy`, the slab iterator, storages produced by histories (used by
+    `Props/C20Storage.lean`).
 -/
